@@ -1090,7 +1090,7 @@ func TestCheck(t *testing.T) {
 							continue
 						}
 						if c.Expired() {
-							c.Cap(fmt.Sprintf("wall budget: requests are visited dataset by dataset, narrow bounds first; this shard stopped at request index %d", idx))
+							c.Cap(fmt.Sprintf("wall budget: requests are visited dataset by dataset (buffer size 3 before 1000), narrow bounds first; a shard stopped in dataset %+v", ds))
 							if h != nil {
 								h.close()
 							}
